@@ -27,9 +27,11 @@ var scenarioNames = []string{
 }
 
 // MaxIdleTimeoutForQuicConnections while the harness runs; a connection whose peer is gone ends at
-// the latest one keep-alive period (half of it) plus one idle timeout after the last packet
-const idleTimeout = 800 * time.Millisecond
-const connQuiet = idleTimeout*3/2 + 400*time.Millisecond
+// the latest one keep-alive period (half of it) plus one idle timeout after the last packet.
+// The thorough tier (many children side by side on a loaded machine) uses a longer one.
+var idleTimeout = 800 * time.Millisecond
+
+func connQuiet() time.Duration { return idleTimeout*3/2 + 400*time.Millisecond }
 
 // scenarioMain: args = name, result path, log path
 func scenarioMain(args []string) {
@@ -268,7 +270,7 @@ func scenarioMain(args []string) {
 					_ = ac.Close()
 				}
 			}
-			now, regs, _ := settle(nodes, connQuiet, 8*time.Second)
+			now, regs, _ := settle(nodes, connQuiet(), 8*time.Second)
 			if len(regs[0]) > 0 {
 				res.violate(fmt.Sprintf("3 connections finished at both ends (%s): the dialling node still has %d ephemeral service(s) registered: %v", mode, len(regs[0]), regs[0]),
 					"leak:ephemeral-service:"+mode, nil)
@@ -383,7 +385,7 @@ func scenarioMain(args []string) {
 		}
 		lg.step("Shutdown of both nodes with open sockets, a subscription, a listener and a connection")
 		m.Shutdown()
-		now, _, _ := settle(nil, connQuiet, 8*time.Second)
+		now, _, _ := settle(nil, connQuiet(), 8*time.Second)
 		var left []string
 		for k, v := range now {
 			if underTest(k) && v > 0 {
